@@ -52,6 +52,7 @@ def run(ctx):
     malsec.dzkp_validate_path(ctx, facts, "PATH-verdict")
     malsec.batch_store_grows(ctx, facts, "STORE-grow")
     malsec.segment_packing(ctx, facts, "PACK-slots")
+    malsec.multiply_impls(ctx, facts, "WHO-multiply")
     tables(ctx, facts)
     ctx.assume("Lagrange interpolation identities and the u/v table algebra are not decided")
 
